@@ -11,7 +11,7 @@ from concurrent.futures import ThreadPoolExecutor
 from harness.core import Ctx
 
 METRICS = {
-    "C01": [("BRANCH", "LINE"), ("LINE",), ("BRANCH",), ("CHECKED",), ("BRANCH", "LINE", "CHECKED"),
+    "C01": [("BRANCH", "LINE"), ("CHECKED",), ("BRANCH", "LINE", "CHECKED"), ("LINE",), ("BRANCH",),
             ("BRANCH", "CHECKED"), ("LINE", "CHECKED")],
     "C02": [("LINE",), ("BRANCH", "LINE"), ("LINE", "CHECKED"), ("BRANCH", "LINE", "CHECKED")],
     "C03": [("BRANCH",), ("BRANCH", "LINE"), ("BRANCH", "CHECKED"), ("BRANCH", "LINE", "CHECKED")],
@@ -34,9 +34,12 @@ def run(ctx: Ctx, prop: str, only: set | None = None) -> int:
     from harness.adapters import idiom_cov, idioms  # noqa: PLC0415
 
     moddir = idioms.split(ctx.work / "idioms")
-    names = [n for n in sorted(idioms.baseline()) if only is None or n in only]
+    names = sorted(idioms.baseline()) + idioms.split_stdlib(moddir, ctx.quick and only is None)
+    names = [n for n in names if only is None or n in only]
     gt = {n: idiom_cov.ground(n, moddir) for n in names}
     msets = METRICS[prop]
+    if ctx.quick and only is None:
+        msets = msets[:4]  # thorough: every combination listed for the property
     with ThreadPoolExecutor(max_workers=4) as ex:  # one forked child per metric combination
         per_metric = list(ex.map(idiom_cov.instrumented_all, [(names, m, moddir) for m in msets]))
     table: dict = {}
